@@ -764,7 +764,11 @@ func chunkSegment(init *mp4.InitSegment, seg *mp4.MediaSegment, segMeta segMeta,
 		}
 		fs = append(fs, ff...)
 	}
-	chunks := make([]chunk, 0, segMeta.newDur/uint32(chunkDur))
+	nrChunks := 0
+	if chunkDur > 0 { // chunkDur <= 0 (availabilityTimeOffset >= segment duration): one chunk per sample
+		nrChunks = int(segMeta.newDur) / chunkDur
+	}
+	chunks := make([]chunk, 0, nrChunks)
 	trackID := init.Moov.Trak.Tkhd.TrackID
 	ch := createChunk(seg.Styp, trackID, segMeta.newNr)
 	chunkNr := 1
